@@ -347,3 +347,45 @@ patch("s-c16h-revive-clears-keytable", "seeded/C16-H/patch.diff", "C16.R7")
 patch("s-c18h-detach-without-release", "seeded/C18-H/patch.diff", "C18.R9")
 patch("s-c20g-delete-before-validate", "seeded/C20-G/patch.diff", "C20.R9")
 patch("s-c20h-pow2-32bit-bound", "seeded/C20-H/patch.diff", "C20.R8")
+
+# round-5 seeds that every check missed on first contact (ids -I/-J)
+patch("s-c02i-blocking-helper-given-copy", "seeded/C02-I/patch.diff", "C02.R10")
+patch("s-c07j-push-head-back-link", "seeded/C07-J/patch.diff", "C07.R9")
+patch("s-c09i-counter-init-one-branch", "seeded/C09-I/patch.diff", "C09.X7")
+patch("s-c13i-loop-reads-pool0", "seeded/C13-I/patch.diff", "C13.R8")
+patch("s-c13j-request-word-equality", "seeded/C13-J/patch.diff", "C13.R10")
+patch("s-c14i-push-many-element0", "seeded/C14-I/patch.diff", "C14.X8")
+patch("s-c15i-unregister-strict-only", "seeded/C15-I/patch.diff", "C15.R8")
+patch("s-c15j-unsafe-lifo-push", "seeded/C15-J/patch.diff", "C15.R2")
+patch("s-c16i-ktable-block-too-large", "seeded/C16-I/patch.diff", "C16.R8")
+patch("s-c17i-rank-minus-one", "seeded/C17-I/patch.diff", "C17.R11")
+patch("s-c18i-cleanup-skips-pool0", "seeded/C18-I/patch.diff", "C18.X8")
+patch("s-c20i-append-behind-head", "seeded/C20-I/patch.diff", "C20.R10")
+patch("s-c20j-signed-overflow-test", "seeded/C20-J/patch.diff", "C20.R3")
+
+# ---- X7 / X8 (hand-made, next to the seeds above)
+m("x7-barrier-counter-uninit", "src/barrier.c",
+  """    p_newbarrier->num_waiters = arg_num_waiters;
+    p_newbarrier->counter = 0;
+    ABTI_waitlist_init(&p_newbarrier->waitlist);
+    /* Return value */""",
+  """    p_newbarrier->num_waiters = arg_num_waiters;
+    ABTI_waitlist_init(&p_newbarrier->waitlist);
+    /* Return value */""", "C08.X7")
+m("x7-cond-waiter-mutex-uninit", "src/include/abti_cond.h",
+  """    ABTD_spinlock_clear(&p_cond->lock);
+    p_cond->p_waiter_mutex = NULL;
+    ABTI_waitlist_init(&p_cond->waitlist);""",
+  """    ABTD_spinlock_clear(&p_cond->lock);
+    ABTI_waitlist_init(&p_cond->waitlist);""", "C05.X7")
+m("x7-sched-replace-waiter-uninit", "src/sched/sched.c",
+  """    p_sched->p_replace_sched = NULL;
+    p_sched->p_replace_waiter = NULL;""",
+  """    p_sched->p_replace_sched = NULL;""", "C06.X7")
+m("x7-neutral-init-order", "src/barrier.c",
+  """    ABTD_spinlock_clear(&p_newbarrier->lock);
+    p_newbarrier->num_waiters = arg_num_waiters;
+    p_newbarrier->counter = 0;""",
+  """    p_newbarrier->counter = 0;
+    p_newbarrier->num_waiters = arg_num_waiters;
+    ABTD_spinlock_clear(&p_newbarrier->lock);""", None, props=["C08", "C18"])
